@@ -80,6 +80,7 @@ type caseResult struct {
 	Inconcl    string
 	Getters    map[string]int
 	Sites      map[string]int // judged calls per scenario:site
+	SideData   string         // persisted contents matched no candidate model but the model does not judge this case
 	Committed  bool
 	FreshLeft  bool // ForWriting only: store "fresh" exists although the transaction did not commit (not judged)
 }
@@ -131,7 +132,9 @@ func setupFor(seed int64) setup {
 	return setup{Profile: []sopx.Profile{sopx.InNode, sopx.Separate, sopx.SepCached}[rnd.Intn(3)], Slot: []int{4, 8}[rnd.Intn(2)]}
 }
 
-func (su setup) options(name string) sop.StoreOptions { return sopx.Options(name, su.Slot, true, su.Profile) }
+func (su setup) options(name string) sop.StoreOptions {
+	return sopx.Options(name, su.Slot, true, su.Profile)
+}
 
 func seedStore(d sopx.DB, su setup) error {
 	t, err := d.Begin(sop.ForWriting)
@@ -377,7 +380,11 @@ func runCase(seed int64, mode sop.TransactionMode, seq []Sym) (res caseResult) {
 			break
 		}
 	}
-	if accepted != nil && !match {
+	if !match && !m.dataJudged() {
+		// side observation, not judged (see machine.dataJudged)
+		res.SideData = fmt.Sprintf("%s %v: final phase %s, persisted %v, candidate models %v", modeName(mode), symNames(seq), m.Phase, sd.Items, accepted)
+	}
+	if m.dataJudged() && !match {
 		oc := "items-changed"
 		if mode == sop.ForWriting {
 			if m.Phase == PhCommitted {
@@ -633,7 +640,8 @@ func Run(r *report.Run) int {
 	panicSamples := map[string]string{}
 	legitSamples := map[string]int{}
 	perLevel := []int{}
-	var freshSamples []string
+	var freshSamples, sideSamples []string
+	sideData := 0
 	storeSetBy := map[string]int{}
 
 	for _, mode := range modes {
@@ -698,6 +706,12 @@ func Run(r *report.Run) int {
 						panicSamples[k] = p
 					}
 				}
+				if res.SideData != "" {
+					sideData++
+					if len(sideSamples) < 6 {
+						sideSamples = append(sideSamples, res.SideData)
+					}
+				}
 				if res.FreshLeft {
 					freshLeft++
 					if len(freshSamples) < 8 {
@@ -749,6 +763,10 @@ func Run(r *report.Run) int {
 	r.Count("calls_that_panicked_not_judged", int64(panics))
 	r.Count("writer_left_fresh_store_without_commit_not_judged", int64(freshLeft))
 	r.Count("sequences_ending_committed", int64(commits))
+	r.Count("writes_after_phase1_then_contents_match_no_model_not_judged", int64(sideData))
+	if len(sideSamples) > 0 {
+		r.Set("writes_after_phase1_samples_not_judged", sideSamples)
+	}
 	r.Count("distinct_reference_states_reached", int64(len(stateCount)))
 	r.Set("sequences_per_level", perLevel)
 	r.Set("getter_observations_not_judged", getters)
